@@ -9,6 +9,7 @@ from typing import (
     List,
     Optional,
     Protocol,
+    Set,
     Tuple,
     Union,
     cast,
@@ -112,25 +113,52 @@ def resolve1(x: object, default: object = None) -> Any:
 
     If this is an array or dictionary, it may still contains
     some indirect objects inside.
+
+    A chain of references that leads back to itself (an object whose value
+    is a reference to itself, or a longer cycle) resolves to the default.
     """
+    seen: Optional[Set[int]] = None
     while isinstance(x, PDFObjRef):
+        if seen is None:
+            seen = {x.objid}
+        elif x.objid in seen:
+            logger.warning("Circular reference to object %d", x.objid)
+            return default
+        else:
+            seen.add(x.objid)
         x = x.resolve(default=default)
     return x
 
 
-def resolve_all(x: object, default: object = None) -> Any:
+def resolve_all(
+    x: object,
+    default: object = None,
+    _parents: Optional[Set[int]] = None,
+) -> Any:
     """Recursively resolves the given object and all the internals.
 
     Make sure there is no indirect reference within the nested object.
     This procedure might be slow.
+
+    An indirect object that contains itself resolves to the default at the
+    point where the cycle closes.
     """
+    parents = set() if _parents is None else _parents
+    entered = []
     while isinstance(x, PDFObjRef):
+        if x.objid in parents:
+            logger.warning("Circular reference to object %d", x.objid)
+            x = default
+            break
+        parents.add(x.objid)
+        entered.append(x.objid)
         x = x.resolve(default=default)
     if isinstance(x, list):
-        x = [resolve_all(v, default=default) for v in x]
+        x = [resolve_all(v, default=default, _parents=parents) for v in x]
     elif isinstance(x, dict):
         for k, v in x.items():
-            x[k] = resolve_all(v, default=default)
+            x[k] = resolve_all(v, default=default, _parents=parents)
+    parents.difference_update(entered)
     return x
 
 
